@@ -1,2 +1,2 @@
-import sys; sys.path.insert(0,'/tmp/fixes'); from edit import rep
+import sys; sys.path.insert(0,'/verif/tools'); from edit import rep
 rep('segno/encoder.py', "        buff.extend([0] * (8 - (length % 8)))", "        buff.extend([0] * (-length % 8))")
